@@ -274,14 +274,15 @@ func init() {
 }
 
 // c11ClassSpecs: a class expression under + in a fragment that drops or keeps
-// what it matches, before a token rule over a..e. The classes are every ordered
-// pair of items from {a, c, a-b, b-d, a-d, a-e} (items nested in, overlapping,
+// what it matches, before a token rule over a..z. The classes are every ordered
+// pair of items from {a, b, a-b, b-c, a-c, a-z} (the letters the driver's
+// alphabet has: a, b, c, z; items nested in, overlapping,
 // adjacent to one another), plain, negated and as the right-hand side of a
 // difference: a class that comes out LARGER than its meaning makes the fragment
 // swallow text that no discarding rule of the specification matches.
 func c11ClassSpecs() []*lexref.Spec {
-	items := []lexref.ClassItem{lexref.Ch('a'), lexref.Ch('c'), lexref.Range('a', 'b'), lexref.Range('b', 'd'), lexref.Range('a', 'd'), lexref.Range('a', 'e')}
-	ae := func() *lexref.Class { return &lexref.Class{Items: []lexref.ClassItem{lexref.Range('a', 'e')}} }
+	items := []lexref.ClassItem{lexref.Ch('a'), lexref.Ch('b'), lexref.Range('a', 'b'), lexref.Range('b', 'c'), lexref.Range('a', 'c'), lexref.Range('a', 'z')}
+	ae := func() *lexref.Class { return &lexref.Class{Items: []lexref.ClassItem{lexref.Range('a', 'z')}} }
 	var out []*lexref.Spec
 	for _, x := range items {
 		for _, y := range items {
